@@ -1,7 +1,7 @@
 """C07 - checked arithmetic is total (shares engine E-overflow with C06; owns the trap/abort/hang events)."""
 from . import c06
 
-RULE = ("same kernels and workload as C06 (exhaustive 8x8-bit pairs, boundary lattice squared, bound-solved pairs, all shift counts 0..2w+1 and huge counts, float neighbours of every bound, +-inf, "
+RULE = ("same kernels and workload as C06 (exhaustive 8x8-bit pairs, boundary lattice squared, bound-solved pairs, all shift counts 0..2w+1 and huge counts, float neighbours of every bound, +-inf, +-NaN, scaled_integer sources of the checked conversion, "
         "seeded random); the monitor is the event kind only: a UBSan trap (signed overflow, shift, division, float-cast), SIGFPE/SIGSEGV, a CNL abort whose message is not the tag's own "
         "'positive/negative overflow', an unexpected exception type or a hang is a violation. distinct_nontrivial as in C06.")
 
@@ -10,4 +10,4 @@ def run(tier, seed, only=None):
     res = c06.run_prop("C07", tier, seed, only)
     return res.finish(RULE, assumptions=[
         "UB is observed only on executed inputs, through -fsanitize=undefined,float-cast-overflow,float-divide-by-zero in trap mode and the CNL_DEBUG abort hook",
-        "domain: divisor != 0, shift count >= 0", "value mismatches are C06's business"])
+        "domain: divisor != 0, shift count >= 0; floating-point sources include +-NaN and +-inf", "value mismatches are C06's business"])
